@@ -102,6 +102,7 @@ def harness(ns, params):
         # the symbolic item
         smn = SymStr.fresh("smn", 4, minlen=3)
         A(allc(smn, lambda c: z.in_range_c(c, 65, 90)))
+        A(z.Not(z.Or(smn.eq_expr("API"), smn.eq_expr("UWI"))))  # their values stay text by design (property C08)
         sval = fresh_int("sval", 0, len(STEER_VALUES) - 1)
         inputs = {"order": order, "engine": engine, "steer_in": steer_in, "titles": [titles[k] for k in order], "smn": smn, "sval": sval}
         c = core.ctx()
@@ -126,7 +127,7 @@ def harness(ns, params):
         obl = []
         secs = las.sections
         # expected section keys: the five standard ones + the custom title (without '~')
-        xkey = titles["X"][1:]
+        xkey = SymStr.lift(SymStr.lift(titles["X"]).strip())[1:] if isinstance(titles["X"], SymStr) else titles["X"].strip()[1:]  # the title line is stripped
         from symlas import loader
 
         nkeys = len(secs)
@@ -135,7 +136,7 @@ def harness(ns, params):
         obl.append(("custom-section-kept-under-its-title", foundx))
         exp = {"Version": [("VERS", "", 2.0, "v"), ("WRAP", "", "NO", "w")], "Well": [t for _, t in CONTENT["W"]], "Curves": [t for _, t in CONTENT["C"]], "Parameter": [t for _, t in CONTENT["P"]]}
         xexp = [t for _, t in CONTENT["X"]]
-        steer_item = (smn, "", _steer_value(sv), "x")
+        steer_item = (smn, "", sv if steer_in == "C" else _steer_value(sv), "x")  # ~Curves values stay text
         {"C": exp["Curves"], "P": exp["Parameter"], "X": xexp}[steer_in].append(steer_item)
         for name, items in list(exp.items()) + ([("<custom>", xexp)] if foundx else []):
             got = xsec if name == "<custom>" else secs.get(name)
@@ -177,6 +178,14 @@ def _eq(a, b):
 
 
 def _eqv(a, b):
+    from symlas.symnum import SymNum
+
+    if isinstance(a, SymNum):
+        # a number parsed from symbolic text: equal iff its source text is the expected literal
+        if isinstance(b, (str, SymStr)):
+            return False
+        want = {1.2: "1.2", 5: "5"}.get(b)
+        return SymStr.lift(a.text).eq_expr(want) if want is not None and (a.kind == "int") == isinstance(b, int) else False
     if isinstance(a, (str, SymStr)) or isinstance(b, (str, SymStr)):
         return _eq(a, b)
     return bool(a == b)
@@ -203,8 +212,8 @@ def replay(i):
         return {"ok": False, "detail": "read raised %r for\n%s" % (e, text), "observed": {"raised": type(e).__name__}}
     problems = []
     exp = {"Version": [("VERS", "", 2.0, "v"), ("WRAP", "", "NO", "w")], "Well": [t for _, t in CONTENT["W"]], "Curves": [t for _, t in CONTENT["C"]], "Parameter": [t for _, t in CONTENT["P"]],
-           tmap["X"][1:]: [t for _, t in CONTENT["X"]]}
-    {"C": exp["Curves"], "P": exp["Parameter"], "X": exp[tmap["X"][1:]]}[steer_in].append((smn, "", _steer_value(sv), "x"))
+           tmap["X"].strip()[1:]: [t for _, t in CONTENT["X"]]}
+    {"C": exp["Curves"], "P": exp["Parameter"], "X": exp[tmap["X"].strip()[1:]]}[steer_in].append((smn, "", sv if steer_in == "C" else _steer_value(sv), "x"))
     if sorted(las.sections.keys()) != sorted(list(exp.keys()) + ["Other"]):
         problems.append("sections %r, expected %r" % (sorted(las.sections.keys()), sorted(list(exp.keys()) + ["Other"])))
     for name, items in exp.items():
